@@ -1745,3 +1745,8 @@ mut("C11", "assignment-value-single-line", "R11-16|types::drain_env_tokens|multi
     "the assignment recogniser no longer accepts a newline in the value",
     (T, 'if !sep.is_empty() || !libs::re::re_contains(text, r"(?s)^([a-zA-Z0-9_]+)=(.*)$") {',
      'if !sep.is_empty() || !libs::re::re_contains(text, r"^([a-zA-Z0-9_]+)=(.*)$") {'))
+
+mut("C17", "alias-listing-always-single-quotes", "R17-8|builtins::alias::show_alias_list|fixed-quote|single",
+    "the listing wraps every value in single quotes again",
+    ("src/builtins/alias.rs", """        let line = format!("alias {}={}", name, quote_alias_value(&value));""",
+     """        let line = format!("alias {}='{}'", name, value);"""))
